@@ -1,6 +1,7 @@
 #!/bin/sh
 # usage: tools/seedall.sh [seed ...]  -- applies every seeded change (or the listed ones) to /repo, runs its property's quick check, reverts;
 # writes seeded/RESULTS.tsv: seed, verdict, concrete inputs, obligations (proof / generated model / correspondence) broken
+export VERIF_EVIDENCE_DIR=${VERIF_EVIDENCE_DIR:-/tmp/verif-seed-evidence}; mkdir -p "$VERIF_EVIDENCE_DIR"
 cd "$(dirname "$0")/.."
 seeds="$@"; [ -z "$seeds" ] && seeds=$(ls seeded | grep -E '^C[0-9]+-m[0-9]+$')
 out=seeded/RESULTS.tsv; [ $# -eq 0 ] && : > $out
@@ -11,7 +12,7 @@ for s in $seeds; do
   git -C /repo checkout -- .
   nin=$(echo "$log" | grep -c '^VIOLATION' ); nno=$(echo "$log" | grep '^VIOLATION' | grep -c 'no-failing-input-found')
   th=$(echo "$log" | tail -1 | sed 's/.*theorems \([0-9]*\/[0-9]*\).*/\1/')
-  kinds=$(for f in evidence/replays/$prop-*.json; do [ -f "$f" ] && python3 -c "import json,sys; d=json.load(open('$f')); print((d.get('stage') or 'obligation')+':'+(d.get('key') or 'broken'))"; done | sort -u | tr '\n' ' ')
+  kinds=$(for f in $VERIF_EVIDENCE_DIR/replays/$prop-*.json; do [ -f "$f" ] && python3 -c "import json,sys; d=json.load(open('$f')); print((d.get('stage') or 'obligation')+':'+(d.get('key') or 'broken'))"; done | sort -u | tr '\n' ' ')
   echo "$s	rc=$rc	violations=$nin	without-input=$nno	theorems=$th	$kinds" >> $out
   echo "$s rc=$rc violations=$nin without-input=$nno theorems=$th $kinds"
 done
